@@ -145,9 +145,21 @@ def txn_alphabet(ctx, keys, vals, L):
         pairs = tuple((k, vals[i % 2]) for i, k in enumerate(keys))
         base.append(('update', 'pairs', pairs))
         base.append(('update', 'dict', pairs[::2]))
+        # the other mutating entry points (each must announce its change itself)
+        base.append(('pop', keys[0]))
+        base.append(('pop', keys[-1]))
+        base.append(('setdefault', keys[1], vals[1]))
+        if ctx.kind == 'BTree':
+            base.append(('insert', keys[len(keys) // 2], vals[0]))
     else:
         base.append(('update', 'list', tuple(keys)))
         base.append(('update', 'list', tuple(keys[::2])))
+        base.append(('discard', keys[0]))
+        base.append(('insert', keys[-1]))
+        base.append(('ior', 'list', tuple(keys[1::2])))
+        base.append(('iand', 'list', tuple(keys[1:])))
+        base.append(('isub', 'list', tuple(keys[:2])))
+        base.append(('ixor', 'list', tuple(keys[::2])))
     txns = [(op,) for op in base]
     if L >= 2:
         txns += [(a, b) for a in base for b in base]
@@ -235,7 +247,14 @@ def verify_reader(ctx, world, sizes, want, report, guards, what):
         report('reader', 'dump-failed', repr(e))
         return None
     if cr != cw:
-        report('reader', 'shape', '%s: reader %r, writer %r' % (what, cr, cw))
+        # finding F12c: the stored root embeds its only bucket while the same commit also wrote
+        # that bucket as a record of its own (an unlinked, emptied bucket that is still
+        # registered keeps a `next` reference to it): reader = embedded form, writer = the same
+        # contents as a one-child tree whose leaf has an oid
+        double = bool(tree and cr[0] == 'I' and len(cr) == 2 and cw[0] != 'I' and cw[0] != 'E'
+                      and cw == (('T', (('L', 0),), 0), ((cr[1], None),)))
+        report('reader', 'shape-root-embedded-and-stored' if double else 'shape',
+               '%s: reader %r, writer %r' % (what, cr, cw))
     if tree:
         probs = C.walk(cr, ctx.is_map, *(sizes or (None, None)))
         if probs:
